@@ -33,6 +33,8 @@ Inductive alay_case :=
 | CUpdSlave (e : env_id) (master_state : Z) (init : list Z) (after : option (list Z))
 | CFrame (blocks : list (list Z)) (ms : Z) (frame : list Z)
 | CDecode (frame : list Z) (items : list (nat * tbl_id * string * value))
+| CModeRec (mode_id : Z) (observed : Z)
+| CSys (inits : list (list Z)) (ops : list (nat * (string * value))) (finals : list (list Z))
 | CF64ofZ (z : Z) (out : option Z)
 | CF32ofF64 (x : Z) (out : option Z)
 | CF64ofF32 (x : Z) (out : Z).
@@ -67,6 +69,14 @@ Definition block_sizes : list nat :=
   [AlayGolden.gs_size; AlayGolden.axis_size; AlayGolden.axis_size; AlayGolden.axis_size]
   ++ repeat AlayGolden.motor_size 13 ++ [AlayGolden.ps_size; AlayGolden.fs_size].
 
+(* the 18 blocks of a System in frame order, with the generated motor counts *)
+Definition sys_descs : list (list field * axis_env) :=
+  [(AlayLayout.gs_table, AlayLayout.env_default); (AlayLayout.axis_table, AlayLayout.env_AZ);
+   (AlayLayout.axis_table, AlayLayout.env_EL); (AlayLayout.axis_table, AlayLayout.env_CW)]
+  ++ repeat (AlayLayout.motor_table, AlayLayout.env_default)
+            (n_motors AlayLayout.env_AZ + n_motors AlayLayout.env_EL + n_motors AlayLayout.env_CW)
+  ++ [(AlayLayout.ps_table, AlayLayout.env_default); (AlayLayout.fs_table, AlayLayout.env_default)].
+
 Definition ok (c : alay_case) : bool :=
   match c with
   | CSeq t e init ops => run_ops (table_of t) (env_of e) init ops
@@ -86,6 +96,8 @@ Definition ok (c : alay_case) : bool :=
         | Some o, Some n => option_eqb value_eqb (getn (golden_of t) name (slice o n fr)) (Some expect)
         | _, _ => false
         end) items
+  | CModeRec m obs => received_mode AlayLayout.mode_codes m =? obs
+  | CSys inits ops finals => list_eqb zlist_eqb (sys_run sys_descs ops inits) finals
   | CF64ofZ z out => option_eqb Z.eqb (f64_of_Z z) out
   | CF32ofF64 x out => option_eqb Z.eqb (f32_of_f64 x) out
   | CF64ofF32 x out => f64_of_f32 x =? out
